@@ -714,3 +714,48 @@ def rule_crypto_reassembly(tree: Tree) -> RuleResult:
         and "buffer = buffer[4 + record_len:]" in txt and "if len(buffer) <= 4:" in txt
     r.ob(ok, Finding("CRY", "quic.quic_tls_parser:QuicTlsSession.handle_buffer:framing", "handshake messages are framed as type(1) length(3) body; a message is handed on only when complete and then removed from the buffer", hb.module.line(hb.node)))
     return r
+
+
+def rule_quic_handshake_state(tree: Tree) -> RuleResult:
+    r = RuleResult("QHS", "QUIC handshake state: TLS decryptors are (re)built only when new handshake data was parsed and the flag is cleared afterwards; a Retry discards "
+                          "every derived key (the next Initial is protected with keys of the Retry's source connection ID)")
+    f = tree.func(QS, "QuicSession.handle_crypto_frame")
+    cfg = cfg_of(f.node)
+    r.instances += 1
+    calls = [c for c in body_walk(f.node) if isinstance(c, ast.Call) and dotted(c.func) == "self.set_tls_decryptors"]
+    resets = [n for n in cfg.nodes if n.kind == "stmt" and isinstance(n.ast, ast.Assign) and dotted(n.ast.targets[0]) == "self.tls_session.new_data" and try_fold(n.ast.value) is False]
+    ok = len(calls) == 1 and len(resets) == 1
+    if ok:
+        nid = cfg.node_of(calls[0])
+        facts = cfg.facts_at(nid)
+        ok = fact_holds(facts, "self.tls_session.new_data", True) and fact_holds(cfg.facts_at(resets[0].id), "self.tls_session.new_data", True)
+        # the reset is reached on every path that saw new data (it is not nested under the key conditions)
+        extra = [src(e, 60) for e, t in cfg.facts_at(resets[0].id) if src(e, 60) != "self.tls_session.new_data"]
+        ok = ok and not extra
+        ok = ok and [src(a) for a in calls[0].args] == ["self.tls_session.client_random", "self.tls_session.ciphersuite"]
+    r.ob(ok, Finding("QHS", f"{QS}:QuicSession.handle_crypto_frame:new-data-flag",
+                     "set_tls_decryptors(client_random, ciphersuite) may run only when the TLS parser reports new data, and the flag must be cleared on that path: otherwise every later "
+                     "CRYPTO frame re-creates the 1-RTT decryptor list and drops the generations derived by key updates", f.module.line(f.node)))
+    hq = tree.func(QS, "QuicSession.handle_quic_packet")
+    cfg2 = cfg_of(hq.node)
+    r.instances += 1
+    got = {}
+    for n in cfg2.nodes:
+        if n.kind == "stmt" and isinstance(n.ast, (ast.Assign, ast.AnnAssign)) and fact_holds(cfg2.facts_at(n.id), "quic_packet.packet_type == QuicPacketType.RETRY", True):
+            tg = dotted(n.ast.targets[0] if isinstance(n.ast, ast.Assign) else n.ast.target)
+            got[tg] = src(n.ast.value, 60)
+    want = {"self.tls_session": "QuicTlsSession()", "self.decryptors": "{}", "self.keys": "{}"}
+    bad = {k: got.get(k) for k, v in want.items() if got.get(k) != v}
+    r.ob(not bad, Finding("QHS", f"{QS}:QuicSession.handle_quic_packet:retry-reset",
+                          f"a Retry must discard the TLS parser state and *all* derived keys and decryptors (Initial keys included: the retried Initial uses the Retry's SCID as DCID); found {bad}", hq.module.line(hq.node)))
+    # Initial keys are (re)derived from the DCID of the packet at hand whenever no Initial decryptor is installed
+    hp = tree.func(QS, "QuicSession.handle_packet")
+    cfg3 = cfg_of(hp.node)
+    r.instances += 1
+    ic = [c for c in body_walk(hp.node) if isinstance(c, ast.Call) and dotted(c.func) == "self.set_initial_decryptor"]
+    ok = len(ic) == 1 and [src(a) for a in ic[0].args] == [hp.params[2], "False"]
+    if ok:
+        facts = [(src(e, 80), t) for e, t in cfg3.facts_at(cfg3.node_of(ic[0]))]
+        ok = facts == [("'Initial' not in list(self.decryptors.keys())", True)] or facts == [("'Initial' in list(self.decryptors.keys())", False)] or facts == [("'Initial' not in self.decryptors", True)]
+    r.ob(ok, Finding("QHS", f"{QS}:QuicSession.handle_packet:initial-keys", "Initial keys are derived from the destination connection ID of the first packet seen while no Initial decryptor is installed (AES-128 parameters)", hp.module.line(hp.node)))
+    return r
